@@ -34,6 +34,7 @@ CONSTANTS Scns,        \* set of scenario records (same shape as the traces' scn
           Monitor,     \* FALSE: m is frozen (liveness configurations)
           FaultKinds,  \* subset of {"kill", "nodekill", "sbatch", "squeue"}: which injected faults are explored
           MaxFaults,   \* at most this many injected faults per behaviour
+          UserCancels, \* TRUE: the user may run cancel-jobs once, at any moment
           Log,         \* TRUE: keep path/elog (cover and simulation configurations; hidden by VIEW)
           Fixed        \* set of findings repaired in the modelled tree, e.g. {"F1"}; the pinned defects stay expressible
 
@@ -42,7 +43,9 @@ Repaired == "F1" \in Fixed
 LOGIN == 0
 RunSlot(b) == b
 TrySlot(b) == MaxB + b
-Slots == 0..(2 * MaxB)
+CSLOT == 2 * MaxB + 1           \* the user's cancel-jobs process (on the login host)
+CTRY == 2 * MaxB + 2            \* ... and the try-submit-jobs it runs at its end
+Slots == 0..(2 * MaxB + 2)
 
 VARIABLES
   S,                \* the scenario (chosen in Init, never changes)
@@ -56,17 +59,18 @@ VARIABLES
   procs,            \* [Slots -> process record]
   npid, nuser, ended,
   nfault,           \* injected faults so far
+  ncancel,          \* cancel-jobs commands issued by the user (0 or 1)
   m,                \* the monitor
   path, elog        \* history (only when Log): action labels taken, events emitted
 
-vars == <<S, cfg, js, marker, bfile, hs, nodeFile, processed, jp, procs, npid, nuser, ended, nfault, m, path, elog>>
-implvars == <<S, cfg, js, marker, bfile, hs, nodeFile, processed, jp, procs, nuser, ended, nfault>>
+vars == <<S, cfg, js, marker, bfile, hs, nodeFile, processed, jp, procs, npid, nuser, ended, nfault, ncancel, m, path, elog>>
+implvars == <<S, cfg, js, marker, bfile, hs, nodeFile, processed, jp, procs, nuser, ended, nfault, ncancel>>
 
 J == JobsOf(S)
 NoFile == [jobs |-> <<>>, hb |-> <<>>]
 SeqOf(set) == SelectSeq(S.jobs, LAMBDA j : j \in set)        \* a set of jobs in listing order
 NodeHost(b) == "node" \o ToString(b)
-SlotHost(s) == IF s = LOGIN THEN "login" ELSE IF s <= MaxB THEN NodeHost(s) ELSE NodeHost(s - MaxB)
+SlotHost(s) == IF s = LOGIN \/ s > 2 * MaxB THEN "login" ELSE IF s <= MaxB THEN NodeHost(s) ELSE NodeHost(s - MaxB)
 
 Idle == [kind |-> "none", pc |-> "idle", pid |-> 0, b |-> 0,
          lcfg |-> <<>>, wcfg |-> <<>>, ljs |-> <<>>, act |-> {}, todo |-> {}, got |-> <<>>, pending |-> <<>>,
@@ -124,7 +128,7 @@ Init ==
                 THEN [Idle EXCEPT !.kind = "submit-jobs", !.pc = "poll", !.pid = 1,
                                   !.lcfg = InitCfg("login"), !.wcfg = InitCfg("login"), !.ljs = InitJs(S), !.lbidx = 1]
                 ELSE Idle]
-  /\ npid = 1 /\ nuser = 0 /\ ended = FALSE /\ nfault = 0
+  /\ npid = 1 /\ nuser = 0 /\ ended = FALSE /\ nfault = 0 /\ ncancel = 0
   /\ m = IF Monitor
            THEN MonSteps(S, MonInit(S),
                   << EvProc(1, "submit-jobs", FALSE, -1),
@@ -146,7 +150,9 @@ Label(s) == P(s).kind
 \* ---------------------------------------------------------------- R1 promotion (one cluster-lock section)
 \* a submitter-type process ends right after its last visible operation (there is no park point before the exit);
 \* a node's nested try-submit-jobs lets its runner go on (NodeEnd)
-Gone(s, ps) == IF s > MaxB THEN [ps EXCEPT ![s] = Idle, ![RunSlot(s - MaxB)].pc = "nend"] ELSE [ps EXCEPT ![s] = Idle]
+Gone(s, ps) == IF s = CTRY THEN [ps EXCEPT ![s] = Idle, ![CSLOT].pc = "cend", ![CSLOT].rc = IF ps[s].exc # "" THEN 1 ELSE ps[s].rc]
+               ELSE IF s > MaxB /\ s <= 2 * MaxB THEN [ps EXCEPT ![s] = Idle, ![RunSlot(s - MaxB)].pc = "nend"]
+               ELSE [ps EXCEPT ![s] = Idle]
 
 Promote(s) ==
   /\ P(s).pc = "promote"
@@ -162,7 +168,7 @@ Promote(s) ==
                                    !.lcfg = c1, !.wcfg = c1, !.ljs = js, !.lbidx = js.bidx, !.act = js.ids])
             /\ Feed(<<"Promote", s, 0>>, <<EvStatus(P(s).pid, c1, js, marker, nodeFile, processed),
                       EvPromote(P(s).pid, host, TRUE, "", host, FALSE)>>)
-  /\ UNCHANGED <<S, js, marker, bfile, hs, nodeFile, processed, jp, npid, nuser, ended, nfault>>
+  /\ UNCHANGED <<S, js, marker, bfile, hs, nodeFile, processed, jp, npid, nuser, ended, nfault, ncancel>>
 
 \* ---------------------------------------------------------------- R3 poll the scheduler once
 Poll(s) ==
@@ -177,7 +183,7 @@ Poll(s) ==
         /\ nfault' = nfault + 1
         /\ Set(s, [P(s) EXCEPT !.pc = "demote", !.exc = "ExecutionError"])
         /\ Feed(<<"PollFail", s, 7>>, [k \in 1..7 |-> [e |-> "squeue", ok |-> FALSE, pid |-> P(s).pid]])
-  /\ UNCHANGED <<S, cfg, js, marker, bfile, hs, nodeFile, processed, jp, npid, nuser, ended>>
+  /\ UNCHANGED <<S, cfg, js, marker, bfile, hs, nodeFile, processed, jp, npid, nuser, ended, ncancel>>
 
 \* ---------------------------------------------------------------- R4 collection
 \* process_results(): take the processed-results lock and glob the node files.  When the last file has been moved
@@ -190,7 +196,7 @@ Glob(s) ==
             /\ Feed(<<"Glob", s, 0>>, <<EvRows(nodeFile, processed), [e |-> "collected", rows |-> <<>>]>>)
        ELSE /\ Set(s, [P(s) EXCEPT !.pc = "move", !.todo = todo, !.got = <<>>])
             /\ Feed(<<"Glob", s, 0>>, <<>>)
-  /\ UNCHANGED <<S, cfg, js, marker, bfile, hs, nodeFile, processed, jp, npid, nuser, ended, nfault>>
+  /\ UNCHANGED <<S, cfg, js, marker, bfile, hs, nodeFile, processed, jp, npid, nuser, ended, nfault, ncancel>>
 
 Move(s, b) ==
   /\ P(s).pc = "move" /\ b \in P(s).todo
@@ -201,7 +207,7 @@ Move(s, b) ==
      /\ processed' = pr /\ nodeFile' = nf
      /\ Set(s, [P(s) EXCEPT !.todo = @ \ {b}, !.got = got1, !.pc = IF last THEN "cancel" ELSE "move"])
      /\ Feed(<<"Move", s, b>>, <<EvRows(nf, pr)>> \o (IF last THEN <<EvRows(nf, pr), [e |-> "collected", rows |-> got1]>> ELSE <<>>))
-  /\ UNCHANGED <<S, cfg, js, marker, bfile, hs, jp, npid, nuser, ended, nfault>>
+  /\ UNCHANGED <<S, cfg, js, marker, bfile, hs, jp, npid, nuser, ended, nfault, ncancel>>
 
 \* one iteration of the `while need_to_rerun` loop body after process_results() returned
 CancelPass(s) ==
@@ -227,7 +233,7 @@ CancelPass(s) ==
         /\ Set(s, [p EXCEPT !.ljs = ljs1, !.newly = newly, !.canc = @ \o cseq, !.pending = crows, !.got = <<>>,
                             !.pc = IF crows # <<>> THEN "glob" ELSE "marker"])
         /\ Feed(<<"CancelPass", s, Len(crows)>>, Zip(1))
-  /\ UNCHANGED <<S, cfg, js, marker, bfile, hs, nodeFile, jp, npid, nuser, ended, nfault>>
+  /\ UNCHANGED <<S, cfg, js, marker, bfile, hs, nodeFile, jp, npid, nuser, ended, nfault, ncancel>>
 
 \* ---------------------------------------------------------------- R5 submitter.lock
 MarkerTouch(s) ==
@@ -236,7 +242,7 @@ MarkerTouch(s) ==
        THEN Set(s, [P(s) EXCEPT !.pc = "demote", !.exc = "Exception"]) /\ UNCHANGED marker
        ELSE marker' = TRUE /\ Set(s, [P(s) EXCEPT !.pc = "group", !.gi = 1, !.subm = <<>>, !.blkd = {}])
   /\ Feed(<<"MarkerTouch", s, 0>>, <<>>)
-  /\ UNCHANGED <<S, cfg, js, bfile, hs, nodeFile, processed, jp, npid, nuser, ended, nfault>>
+  /\ UNCHANGED <<S, cfg, js, bfile, hs, nodeFile, processed, jp, npid, nuser, ended, nfault, ncancel>>
 
 \* ---------------------------------------------------------------- R6 batches
 QueueFull(p) == S.maxnodes > 0 /\ Cardinality(p.act) >= S.maxnodes
@@ -252,11 +258,13 @@ NextGroup(s) ==
   /\ LET p == P(s) IN
      IF p.gi > Len(S.gorder)
        THEN Set(s, [p EXCEPT !.pc = "persist"])
+       ELSE IF "F2" \in Fixed /\ p.lcfg.canceled
+              THEN Set(s, [p EXCEPT !.pc = "persist"])        \* canceled submission: only collect and complete
        ELSE IF QueueFull(p)
               THEN Set(s, [p EXCEPT !.gi = @ + 1])
               ELSE Set(s, [p EXCEPT !.pc = "batch", !.avail = AvailFor(p, p.gi)])
   /\ Feed(<<"NextGroup", s, 0>>, <<>>)
-  /\ UNCHANGED <<S, cfg, js, marker, bfile, hs, nodeFile, processed, jp, npid, nuser, ended, nfault>>
+  /\ UNCHANGED <<S, cfg, js, marker, bfile, hs, nodeFile, processed, jp, npid, nuser, ended, nfault, ncancel>>
 
 \* one iteration of `while not queue.is_full() and available_jobs:` -- _make_batch, files, sbatch
 SubmitBatchX(s, fail) ==
@@ -268,7 +276,7 @@ SubmitBatchX(s, fail) ==
      IN IF QueueFull(p) \/ p.avail = <<>>
           THEN /\ Set(s, [p EXCEPT !.pc = "group", !.gi = @ + 1, !.avail = <<>>])
                /\ Feed(<<"SubmitBatch", s, 0>>, <<>>)
-               /\ UNCHANGED <<bfile, hs, nfault>>
+               /\ UNCHANGED <<bfile, hs, nfault, ncancel>>
           ELSE LET r == MakeBatch(PP, p.avail)
                    b == p.lbidx
                    hb == [k \in 1..Len(r.batch) |-> SeqOf(p.ljs.rem[r.batch[k]])]
@@ -276,7 +284,7 @@ SubmitBatchX(s, fail) ==
                IN IF r.batch = <<>>
                     THEN /\ Set(s, [p EXCEPT !.avail = r.rest, !.blkd = @ \cup r.blocked])
                          /\ Feed(<<"SubmitBatch", s, 0>>, <<>>)
-                         /\ UNCHANGED <<bfile, hs, nfault>>
+                         /\ UNCHANGED <<bfile, hs, nfault, ncancel>>
                     ELSE /\ b \in B          \* the model is bounded to MaxB batches
                          /\ bfile' = [bfile EXCEPT ![b] = [jobs |-> r.batch, hb |-> hb]]
                          \* sbatch fails on all 7 attempts: the batch is not outstanding, its jobs are still recorded as
@@ -291,7 +299,7 @@ SubmitBatchX(s, fail) ==
                                         jobs |-> r.batch, hb |-> hb, rows |-> rowsNow, opts |-> g.opts, run |-> g.run]
                             IN Feed(<<IF fail THEN "SubmitBatchFail" ELSE "SubmitBatch", s, IF fail THEN b ELSE 1>>,
                                     IF fail THEN <<cb, sbe, sbe, sbe, sbe, sbe, sbe, sbe>> ELSE <<cb, sbe>>)
-  /\ UNCHANGED <<S, cfg, js, marker, nodeFile, processed, jp, npid, nuser, ended>>
+  /\ UNCHANGED <<S, cfg, js, marker, nodeFile, processed, jp, npid, nuser, ended, ncancel>>
 
 
 SubmitBatch(s) == SubmitBatchX(s, FALSE)
@@ -320,7 +328,7 @@ Persist(s) ==
             ELSE /\ cfg' = lcfg2 /\ js' = ljs1
                  /\ Set(s, [p EXCEPT !.pc = "check", !.lcfg = lcfg2, !.wcfg = lcfg2, !.ljs = ljs1])
                  /\ Feed(<<"Persist", s, IF need THEN 1 ELSE 0>>, <<EvStatus(p.pid, lcfg2, ljs1, marker, nodeFile, processed)>>)
-  /\ UNCHANGED <<S, marker, bfile, hs, nodeFile, processed, jp, npid, nuser, ended, nfault>>
+  /\ UNCHANGED <<S, marker, bfile, hs, nodeFile, processed, jp, npid, nuser, ended, nfault, ncancel>>
 
 \* ---------------------------------------------------------------- R8/R9
 CheckComplete(s) ==
@@ -330,14 +338,14 @@ CheckComplete(s) ==
          force == ~allDone /\ p.ljs.ids = {}
      IN Set(s, [p EXCEPT !.pc = "unmark", !.done = allDone \/ force])
   /\ Feed(<<"CheckComplete", s, 0>>, <<>>)
-  /\ UNCHANGED <<S, cfg, js, marker, bfile, hs, nodeFile, processed, jp, npid, nuser, ended, nfault>>
+  /\ UNCHANGED <<S, cfg, js, marker, bfile, hs, nodeFile, processed, jp, npid, nuser, ended, nfault, ncancel>>
 
 MarkerRemove(s) ==
   /\ P(s).pc = "unmark"
   /\ marker' = FALSE
   /\ Set(s, [P(s) EXCEPT !.pc = IF P(s).done THEN "summary" ELSE "demote"])
   /\ Feed(<<"MarkerRemove", s, 0>>, <<>>)
-  /\ UNCHANGED <<S, cfg, js, bfile, hs, nodeFile, processed, jp, npid, nuser, ended, nfault>>
+  /\ UNCHANGED <<S, cfg, js, bfile, hs, nodeFile, processed, jp, npid, nuser, ended, nfault, ncancel>>
 
 \* ---------------------------------------------------------------- R10 completion
 ResRow(r) == <<r[1], IF r[2] = "0" THEN 0 ELSE 1, r[3], r[4], r[5], r[6]>>
@@ -353,7 +361,7 @@ Summary(s) ==
                [e |-> "summary", res |-> res, missing |-> missing, tally |-> <<nS, nF, nC, Len(missing)>>]>>)
   \* _handle_completion returns Status.ERROR (exit code 1) when the number of results differs from the number of jobs
   /\ Set(s, [P(s) EXCEPT !.pc = "markcomplete", !.rc = IF Len(processed) # Cardinality(J) THEN 1 ELSE 0])
-  /\ UNCHANGED <<S, cfg, js, marker, bfile, hs, nodeFile, processed, jp, npid, nuser, ended, nfault>>
+  /\ UNCHANGED <<S, cfg, js, marker, bfile, hs, nodeFile, processed, jp, npid, nuser, ended, nfault, ncancel>>
 
 MarkComplete(s) ==
   /\ P(s).pc = "markcomplete"
@@ -364,7 +372,7 @@ MarkComplete(s) ==
             /\ cfg' = c1
             /\ Set(s, [p EXCEPT !.pc = "demote", !.lcfg = c1, !.wcfg = c1])
             /\ Feed(<<"MarkComplete", s, 0>>, <<EvStatus(p.pid, c1, js, marker, nodeFile, processed)>>)
-  /\ UNCHANGED <<S, js, marker, bfile, hs, nodeFile, processed, jp, npid, nuser, ended, nfault>>
+  /\ UNCHANGED <<S, js, marker, bfile, hs, nodeFile, processed, jp, npid, nuser, ended, nfault, ncancel>>
 
 \* ---------------------------------------------------------------- R11 demotion (the `finally` of every path)
 Demote(s) ==
@@ -375,7 +383,7 @@ Demote(s) ==
      /\ procs' = Gone(s, procs)
      /\ Feed(<<"Demote", s, 0>>, <<EvStatus(p.pid, c1, js, marker, nodeFile, processed),
                                    EvExit(p.pid, p.kind, IF p.exc # "" THEN 1 ELSE p.rc, p.exc)>>)
-  /\ UNCHANGED <<S, js, marker, bfile, hs, nodeFile, processed, jp, npid, nuser, ended, nfault>>
+  /\ UNCHANGED <<S, js, marker, bfile, hs, nodeFile, processed, jp, npid, nuser, ended, nfault, ncancel>>
 
 \* the runner's `jade try-submit-jobs` returned: run-jobs exits, the batch leaves the queue
 NodeEnd(s) ==
@@ -384,7 +392,7 @@ NodeEnd(s) ==
      /\ hs' = h1
      /\ Set(s, Idle)
      /\ Feed(<<"NodeEnd", s, 0>>, <<EvExit(P(s).pid, "run-jobs", 0, ""), [e |-> "hpc", what |-> "end", b |-> s, active |-> Active(h1)]>>)
-  /\ UNCHANGED <<S, cfg, js, marker, bfile, nodeFile, processed, jp, npid, nuser, ended, nfault>>
+  /\ UNCHANGED <<S, cfg, js, marker, bfile, nodeFile, processed, jp, npid, nuser, ended, nfault, ncancel>>
 
 \* ---------------------------------------------------------------- the HPC and the nodes
 StartBatch(b) ==
@@ -399,7 +407,7 @@ StartBatch(b) ==
                                         !.depth = IF Len(jobs) < maxw THEN Len(jobs) ELSE maxw,
                                         !.nrem = [k \in 1..Len(jobs) |-> ToSet(bfile[b].hb[k])]])
         /\ Feed(<<"StartBatch", b, 0>>, <<[e |-> "hpc", what |-> "start", b |-> b, active |-> Active(h1)], EvProc(npid + 1, "run-jobs", FALSE, b)>>)
-  /\ UNCHANGED <<S, cfg, js, marker, bfile, nodeFile, processed, jp, nuser, ended, nfault>>
+  /\ UNCHANGED <<S, cfg, js, marker, bfile, nodeFile, processed, jp, nuser, ended, nfault, ncancel>>
 
 \* start queued jobs into free slots, in queue order, skipping blocked ones (JobQueue.submit / process_queue)
 \* returns [queue, outst, started (sequence)]
@@ -427,13 +435,13 @@ NodeInit(s) ==
      IN /\ Set(s, [p EXCEPT !.pc = "nwait", !.queue = r.queue, !.outst = r.outst, !.nrem = nremF])
         /\ jp' = [j \in J |-> IF j \in ToSet(r.started) THEN "running" ELSE jp[j]]
         /\ Feed(<<"NodeInit", s, Len(r.started)>>, LaunchEvents(p.pid, p.b, r.started, 0, SeqOf(NamesOnDisk(nodeFile, processed))))
-  /\ UNCHANGED <<S, cfg, js, marker, bfile, hs, nodeFile, processed, npid, nuser, ended, nfault>>
+  /\ UNCHANGED <<S, cfg, js, marker, bfile, hs, nodeFile, processed, npid, nuser, ended, nfault, ncancel>>
 
 JobExit(j) ==
   /\ j \in J /\ jp[j] = "running"
   /\ jp' = [jp EXCEPT ![j] = "exited"]
   /\ Feed(<<"JobExit", j, 0>>, <<[e |-> "jobexit", job |-> j, rc |-> S.rc[j]]>>)
-  /\ UNCHANGED <<S, cfg, js, marker, bfile, hs, nodeFile, processed, procs, npid, nuser, ended, nfault>>
+  /\ UNCHANGED <<S, cfg, js, marker, bfile, hs, nodeFile, processed, procs, npid, nuser, ended, nfault, ncancel>>
 
 \* JobQueue._check_completions as a fixpoint.  st = [outst, queue, nrem, failed, rows (appended, in order), fin (set)]
 \* isDoneF(j): the job's process has exited, or the job was canceled by this queue
@@ -488,7 +496,7 @@ NodePoll(s) ==
                                   !.pc = IF r.queue = <<>> /\ r.outst = <<>> THEN "ntry" ELSE "nwait"])
               /\ Feed(<<"NodePoll", s, Len(c.rows) + Len(r.started)>>, RowEvents(1, nodeFile[p.b])
                       \o LaunchEvents(p.pid, p.b, r.started, Len(c.outst), SeqOf(NamesOnDisk(nf, processed))))
-  /\ UNCHANGED <<S, cfg, js, marker, bfile, hs, processed, npid, nuser, ended, nfault>>
+  /\ UNCHANGED <<S, cfg, js, marker, bfile, hs, processed, npid, nuser, ended, nfault, ncancel>>
 
 \* all jobs of the batch ended: the runner runs `jade try-submit-jobs` and waits for it
 NodeTry(s) ==
@@ -497,7 +505,7 @@ NodeTry(s) ==
   /\ procs' = [procs EXCEPT ![s].pc = "nwaittry",
                             ![TrySlot(s)] = [Idle EXCEPT !.kind = "try-submit-jobs", !.pc = "promote", !.pid = npid + 1, !.b = s]]
   /\ Feed(<<"NodeTry", s, 0>>, <<EvProc(npid + 1, "try-submit-jobs", TRUE, s)>>)
-  /\ UNCHANGED <<S, cfg, js, marker, bfile, hs, nodeFile, processed, jp, nuser, ended, nfault>>
+  /\ UNCHANGED <<S, cfg, js, marker, bfile, hs, nodeFile, processed, jp, nuser, ended, nfault, ncancel>>
 
 
 \* ---------------------------------------------------------------- injected faults (FaultKinds, MaxFaults)
@@ -510,7 +518,7 @@ Kill(s) ==
   /\ nfault' = nfault + 1
   /\ procs' = Gone(s, procs)
   /\ Feed(<<"Kill", s, 0>>, <<[e |-> "kill", pid |-> P(s).pid]>>)
-  /\ UNCHANGED <<S, cfg, js, marker, bfile, hs, nodeFile, processed, jp, npid, nuser, ended>>
+  /\ UNCHANGED <<S, cfg, js, marker, bfile, hs, nodeFile, processed, jp, npid, nuser, ended, ncancel>>
 
 \* the node of a running batch disappears (killed, walltime): runner, its nested try-submit-jobs and its job processes die;
 \* rows already appended stay
@@ -527,7 +535,94 @@ NodeKill(b) ==
         /\ procs' = [procs EXCEPT ![RunSlot(b)] = Idle, ![TrySlot(b)] = Idle]
         /\ jp' = [j \in J |-> IF j \in bj /\ jp[j] \in {"running", "exited"} THEN "none" ELSE jp[j]]
         /\ Feed(<<"NodeKill", b, 0>>, evs)
-  /\ UNCHANGED <<S, cfg, js, marker, bfile, nodeFile, processed, npid, nuser, ended>>
+  /\ UNCHANGED <<S, cfg, js, marker, bfile, nodeFile, processed, npid, nuser, ended, ncancel>>
+
+
+\* ---------------------------------------------------------------- cancel-jobs (cli/cancel_jobs.py, JobSubmitter.cancel_jobs)
+\* UserCancel: the user runs `jade cancel-jobs <output>` on the login host, at any moment, once.
+UserCancel ==
+  /\ UserCancels /\ ncancel = 0 /\ ~ended /\ P(CSLOT).kind = "none"
+  /\ ncancel' = 1 /\ npid' = npid + 1
+  /\ Set(CSLOT, [Idle EXCEPT !.kind = "cancel-jobs", !.pc = "cpromote", !.pid = npid + 1])
+  /\ Feed(<<"UserCancel", CSLOT, 0>>, <<EvProc(npid + 1, "cancel-jobs", FALSE, -1)>>)
+  /\ UNCHANGED <<S, cfg, js, marker, bfile, hs, nodeFile, processed, jp, nuser, ended, nfault>>
+
+\* `for _ in range(60): deserialize(try_promote...)`: refused -> sleep 1 s and try again
+CPromote(s) ==
+  /\ s = CSLOT /\ P(s).pc = "cpromote"
+  /\ IF cfg.sub # ""
+       THEN /\ Set(s, P(s))
+            /\ Feed(<<"CPromote", s, 0>>, <<EvPromote(P(s).pid, "login", FALSE, cfg.sub, cfg.sub, FALSE)>>)
+            /\ UNCHANGED cfg
+       ELSE LET c1 == [cfg EXCEPT !.sub = "login", !.ver = @ + 1] IN
+            /\ cfg' = c1
+            /\ Set(s, [P(s) EXCEPT !.pc = IF cfg.complete THEN "cdemote0" ELSE "cscancel", !.lcfg = c1, !.wcfg = c1, !.ljs = js,
+                                   !.todo = js.ids])
+            /\ Feed(<<"CPromote", s, 1>>, <<EvStatus(P(s).pid, c1, js, marker, nodeFile, processed),
+                                            EvPromote(P(s).pid, "login", TRUE, "", "login", FALSE)>>)
+  /\ UNCHANGED <<S, js, marker, bfile, hs, nodeFile, processed, jp, npid, nuser, ended, nfault, ncancel>>
+
+\* scancel of the next persisted id (in the persisted order): a pending batch leaves the queue, a running one is killed
+\* with everything on its node; a batch that already left the queue makes scancel fail (ignored)
+CScancel(s) ==
+  /\ s = CSLOT /\ P(s).pc = "cscancel"
+  /\ IF P(s).todo = {}
+       THEN /\ Set(s, [P(s) EXCEPT !.pc = "cmark"]) /\ Feed(<<"CScancel", s, 0>>, <<>>)
+            /\ UNCHANGED <<hs, jp>>
+       ELSE LET b == CHOOSE x \in P(s).todo : \A y \in P(s).todo : x <= y
+                running == hs[b] = "running"
+                h1 == IF hs[b] \in {"pending", "running"} THEN [hs EXCEPT ![b] = "cancelled"] ELSE hs
+                tryAlive == P(TrySlot(b)).kind # "none"
+                bj == ToSet(bfile[b].jobs)
+                kills == IF running
+                           THEN <<[e |-> "nodekill", pid |-> P(RunSlot(b)).pid]>>
+                                \o (IF tryAlive THEN <<[e |-> IF HoldsRole(TrySlot(b)) THEN "kill" ELSE "nodekill", pid |-> P(TrySlot(b)).pid]>> ELSE <<>>)
+                           ELSE <<>>
+                hev == IF hs[b] \in {"pending", "running"} THEN <<[e |-> "hpc", what |-> "cancel", b |-> b, active |-> Active(h1)]>> ELSE <<>>
+            IN /\ hs' = h1
+               /\ procs' = [procs EXCEPT ![s].todo = @ \ {b},
+                                         ![RunSlot(b)] = IF running THEN Idle ELSE @,
+                                         ![TrySlot(b)] = IF running THEN Idle ELSE @]
+               /\ jp' = [j \in J |-> IF running /\ j \in bj /\ jp[j] \in {"running", "exited"} THEN "none" ELSE jp[j]]
+               /\ Feed(<<"CScancel", s, b>>, <<[e |-> "scancel", b |-> b]>> \o kills \o hev)
+  /\ UNCHANGED <<S, cfg, js, marker, bfile, nodeFile, processed, npid, nuser, ended, nfault, ncancel>>
+
+CMark(s) ==
+  /\ s = CSLOT /\ P(s).pc = "cmark"
+  /\ LET c1 == [P(s).lcfg EXCEPT !.canceled = TRUE, !.ver = @ + 1] IN
+     /\ cfg' = c1
+     /\ Set(s, [P(s) EXCEPT !.pc = "cdemote", !.lcfg = c1, !.wcfg = c1])
+     /\ Feed(<<"CMark", s, 0>>, <<EvStatus(P(s).pid, c1, js, marker, nodeFile, processed)>>)
+  /\ UNCHANGED <<S, js, marker, bfile, hs, nodeFile, processed, jp, npid, nuser, ended, nfault, ncancel>>
+
+\* demote; on an already complete submission that is all (exit 0); otherwise sleep 15 s and run try-submit-jobs
+CDemote(s) ==
+  /\ s = CSLOT /\ P(s).pc \in {"cdemote", "cdemote0"}
+  /\ LET c1 == [P(s).lcfg EXCEPT !.sub = "", !.ver = @ + 1]
+         done == P(s).pc = "cdemote0" IN
+     /\ cfg' = c1
+     /\ IF done THEN procs' = [procs EXCEPT ![s] = Idle] ELSE Set(s, [P(s) EXCEPT !.pc = "ctry", !.lcfg = c1, !.wcfg = c1])
+     /\ Feed(<<"CDemote", s, IF done THEN 0 ELSE 1>>,
+             <<EvStatus(P(s).pid, c1, js, marker, nodeFile, processed)>>
+             \o (IF done THEN <<EvExit(P(s).pid, "cancel-jobs", 0, "")>> ELSE <<>>))
+  /\ UNCHANGED <<S, js, marker, bfile, hs, nodeFile, processed, jp, npid, nuser, ended, nfault, ncancel>>
+
+CTrySpawn(s) ==
+  /\ s = CSLOT /\ P(s).pc = "ctry" /\ P(CTRY).kind = "none"
+  /\ npid' = npid + 1
+  /\ procs' = [procs EXCEPT ![s].pc = "cwait",
+                            ![CTRY] = [Idle EXCEPT !.kind = "try-submit-jobs", !.pc = "promote", !.pid = npid + 1]]
+  /\ Feed(<<"CTrySpawn", s, 0>>, <<EvProc(npid + 1, "try-submit-jobs", TRUE, -1)>>)
+  /\ UNCHANGED <<S, cfg, js, marker, bfile, hs, nodeFile, processed, jp, nuser, ended, nfault, ncancel>>
+
+\* the nested try-submit-jobs returned: cancel-jobs exits with its return code
+CEnd(s) ==
+  /\ s = CSLOT /\ P(s).pc = "cend"
+  /\ Set(s, Idle)
+  /\ Feed(<<"CEnd", s, 0>>, <<EvExit(P(s).pid, "cancel-jobs", P(s).rc, "")>>)
+  /\ UNCHANGED <<S, cfg, js, marker, bfile, hs, nodeFile, processed, jp, npid, nuser, ended, nfault, ncancel>>
+
+CancelStep(s) == CPromote(s) \/ CScancel(s) \/ CMark(s) \/ CDemote(s) \/ CTrySpawn(s) \/ CEnd(s)
 
 \* ---------------------------------------------------------------- the user
 Quiescent == /\ \A s \in Slots : P(s).kind = "none"
@@ -539,21 +634,22 @@ UserTry ==
   /\ npid' = npid + 1 /\ nuser' = nuser + 1
   /\ Set(LOGIN, [Idle EXCEPT !.kind = "try-submit-jobs", !.pc = "promote", !.pid = npid + 1])
   /\ Feed(<<"UserTry", 0, 0>>, <<EvProc(npid + 1, "try-submit-jobs", FALSE, -1)>>)
-  /\ UNCHANGED <<S, cfg, js, marker, bfile, hs, nodeFile, processed, jp, ended, nfault>>
+  /\ UNCHANGED <<S, cfg, js, marker, bfile, hs, nodeFile, processed, jp, ended, nfault, ncancel>>
 
 \* the run is over (complete, or the user gave up): final checks of the monitor
 End ==
   /\ Quiescent /\ ~ended /\ (cfg.complete \/ nuser >= MaxUser)
   /\ ended' = TRUE
   /\ Feed(<<"End", 0, 0>>, <<[e |-> "end", full |-> TRUE]>>)
-  /\ UNCHANGED <<S, cfg, js, marker, bfile, hs, nodeFile, processed, jp, procs, npid, nuser, nfault>>
+  /\ UNCHANGED <<S, cfg, js, marker, bfile, hs, nodeFile, processed, jp, procs, npid, nuser, nfault, ncancel>>
 
 SubStep(s) == \/ Promote(s) \/ Poll(s) \/ Glob(s) \/ (\E b \in B : Move(s, b)) \/ CancelPass(s) \/ MarkerTouch(s)
               \/ NextGroup(s) \/ SubmitBatch(s) \/ SubmitBatchFail(s) \/ Persist(s) \/ CheckComplete(s) \/ MarkerRemove(s)
               \/ Summary(s) \/ MarkComplete(s) \/ Demote(s)
 NodeStep(s) == NodeInit(s) \/ NodePoll(s) \/ NodeTry(s) \/ NodeEnd(s)
 
-Next == \/ \E s \in Slots : SubStep(s) \/ NodeStep(s) \/ Kill(s)
+Next == \/ \E s \in Slots : SubStep(s) \/ NodeStep(s) \/ Kill(s) \/ CancelStep(s)
+        \/ UserCancel
         \/ \E b \in B : NodeKill(b)
         \/ \E b \in B : StartBatch(b)
         \/ \E j \in J : JobExit(j)
